@@ -1,12 +1,12 @@
 #!/bin/bash
-# usage: tools/try_seed.sh <seed dir with patch.diff [demo.py]> <check ids…>
-# Applies the seeded change to /repo, runs the given checks (quick), and restores /repo.
+# usage: tools/try_seed.sh <seed dir with patch.diff [demo.py]> <check ids…|all>
+# Applies the seeded change to /repo, runs the given checks (quick, in parallel), and restores /repo.
 d="$1"; shift
 set -u
 cd /repo || exit 2
 git diff --quiet || { echo "/repo has local changes"; exit 2; }
 if [ -f "$d/demo.py" ]; then
-  echo "demo on clean tree:"; PYTHONPATH=/repo/src /venv/bin/python "$d/demo.py" 2>&1 | tail -2; echo "  exit=$?"
+  echo "demo on clean tree:"; PYTHONPATH=/repo/src /venv/bin/python "$d/demo.py" 2>&1 | tail -2; echo "  exit=${PIPESTATUS[0]}"
 fi
 git apply "$d/patch.diff" || { echo "patch does not apply"; exit 2; }
 trap 'git -C /repo checkout -- . ; echo "[/repo restored]"' EXIT
@@ -15,9 +15,14 @@ if [ -f "$d/demo.py" ]; then
 fi
 if [ "${RUNTESTS:-1}" = 1 ]; then /verif/tools/runtests.sh /repo; fi
 cd /verif
-for p in "$@"; do
-  out=$(./check "$p" quick 2>&1); rc=$?
-  echo "== $p exit=$rc :: $(echo "$out" | grep -c VIOLATION) violation line(s) :: $(echo "$out" | tail -1)"
-  echo "$out" | grep VIOLATION | head -3
+ids="$*"
+[ "$ids" = all ] && ids="C01 C02 C03 C04 C05 C06 C07 C08 C09 C10 C11 C12 C13 C14 C15 C16 C17 C18"
+tmp=$(mktemp -d)
+for p in $ids; do
+  ( out=$(./check "$p" ${TIER:-quick} 2>&1); rc=$?
+    { echo "== $p exit=$rc :: $(echo "$out" | grep -c VIOLATION) violation line(s) :: $(echo "$out" | tail -1)"
+      echo "$out" | grep VIOLATION | head -3; } > "$tmp/$p.out" ) &
 done
-rm -f /verif/replays/*.json.keep 2>/dev/null
+wait
+cat "$tmp"/*.out | grep -v "exit=0 :: 0 violation" ; echo "(clean: $(cat "$tmp"/*.out | grep -c 'exit=0 :: 0 violation'))"
+rm -rf "$tmp"
